@@ -84,10 +84,10 @@ static void report (OrcProgram * p, const VTarget * t, const char *kind, const V
   snprintf (key, sizeof (key), "%s|%s|%s|%s|%s", opt.prop, tlab (t), opsig (p), kinds_sig (p), kind);
   st_viol++;
   if (key_seen (key)) return;
-  v_out ("{\"t\":\"viol\",\"key\":\"%s\",\"what\":\"%s: %s; n=%d m=%d off=[%d,%d,%d,%d|%d,%d,%d,%d] stride_extra=%d pchoice=%d vbase=%llu; program: %s\","
+  v_out ("{\"t\":\"viol\",\"key\":\"%s\",\"what\":\"%s: %s; n=%d m=%d off=[%d,%d,%d,%d|%d,%d,%d,%d] stride_extra=%d flip=0x%x pchoice=%d vbase=%llu; program: %s\","
       "\"replay\":{\"program\":\"%s\",\"target\":\"%s\",\"flags\":%u,\"n\":%d,\"m\":%d,\"off\":[%d,%d,%d,%d,%d,%d,%d,%d,%d,%d,%d,%d],\"stride_extra\":%d,\"pchoice\":%d,\"vbase\":%llu}}",
       v_esc (key), tlab (t), v_esc (msg), c->n, c->m, c->off[0], c->off[1], c->off[2], c->off[3], c->off[4], c->off[5], c->off[6], c->off[7],
-      c->stride_extra, c->pchoice, (unsigned long long) c->vbase, v_esc (oprog_oneline (p)),
+      c->stride_extra, c->flip, c->pchoice, (unsigned long long) c->vbase, v_esc (oprog_oneline (p)),
       v_esc (text ? text : oprog_oneline (p)), t->name, t->flags, c->n, c->m,
       c->off[0], c->off[1], c->off[2], c->off[3], c->off[4], c->off[5], c->off[6], c->off[7], c->off[8], c->off[9], c->off[10], c->off[11],
       c->stride_extra, c->pchoice, (unsigned long long) c->vbase);
@@ -238,6 +238,22 @@ static void explore_program (OrcProgram * p, const char *text, long pidx)
         c.pchoice = k;
         ref_run (p, &c, &R, &exr);
         set_offsets (p, &c, (k * 4) % 32, 1);
+        st_pt++;
+        if (one_run (p, t, &c, &R, &exr, text)) bad = 1;
+        vr_arena_free (&R);
+      }
+      /* bottom-up arrays (negative strides): all, destinations only, sources only */
+      for (a = 0; a < 3 && !bad; a++) for (b = 0; b < 2 && !bad; b++) {
+        static const unsigned flips[] = { 0xfffu, 0x00fu, 0xff0u };
+        memset (&c, 0, sizeof (c));
+        c.m = 3;
+        c.stride_extra = b ? 40 : 0;
+        c.n = p->constant_n > 0 ? p->constant_n : V + 1;
+        c.vbase = 5 + a;
+        c.pchoice = a;
+        c.flip = flips[a];
+        ref_run (p, &c, &R, &exr);
+        set_offsets (p, &c, 4 * a, 1);
         st_pt++;
         if (one_run (p, t, &c, &R, &exr, text)) bad = 1;
         vr_arena_free (&R);
